@@ -41,9 +41,15 @@ func NewGitNode(
 	}
 
 	basePath, path := func() (string, string) {
-		x := strings.Split(u.Path, "//")
+		x := strings.SplitN(u.Path, "//", 2)
+		if len(x) < 2 {
+			return x[0], ""
+		}
 		return x[0], x[1]
 	}()
+	if path == "" {
+		return nil, fmt.Errorf("task: git include %q does not name a file: expected <repository>.git//<path>", entrypoint)
+	}
 	ref := u.Query().Get("ref")
 
 	rawUrl := u.String()
